@@ -56,7 +56,7 @@ classdecl("C22Store", fields=dict(stamp=Opt(REAL)))
 classdecl("C22File", fields=dict(closed=BOOL, cells=List(CELL), nwrites=INT, nrec=INT))
 classdecl("C22StrIO", fields=dict(cells=List(CELL), nnl=INT))
 classdecl("C22Text", fields=dict(cells=List(CELL), nnl=INT))
-classdecl("C22Data", fields=dict(_d=Dict(NAME, VAL)))
+classdecl("C22Data", fields={})
 classdecl("Loggee", fields=dict(stamp=Opt(REAL), _keys=List(NAME), _d=Dict(NAME, VAL)),
           truthy=lambda E, o: E.llen(E.rd_field(o, "_keys")) > 0)
 classdecl("ODLoggees", fields=dict(_keys=List(NAME), _d=Dict(NAME, Ref("Loggee"))),
@@ -170,32 +170,56 @@ def _loggee_keys(E, sh):
 
 
 # ---------------------------------------------------------------- Data records (lasts)
+# A record is a map field name -> value, kept in two heap arrays of its own indexed by the record's reference
+# (so a `lasts` record never aliases a share's field map by construction)
+LKD, LKV = ("c22last", "dom"), ("c22last", "val")
+
+
+def _last_arrays(E, old=False):
+    if old and E.heap_old is not None:
+        heap = E.heap
+        E.heap = dict(E.heap_old)
+        try:
+            return _last_arrays(E)
+        finally:
+            E.heap = heap
+    return (E.harr(LKD, [z3.IntSort(), NS], z3.BoolSort()), E.harr(LKV, [z3.IntSort(), NS], VS))
+
+
+def _is_data(obj):
+    return isinstance(obj, RefV) and obj.cls == "C22Data"
+
+
 def _ext_hasattr(E, args, kwargs):
     obj, name = args[0], args[1]
-    if isinstance(obj, RefV) and obj.cls == "C22Data":
-        t = E.dhas(E.rd_field(obj, "_d"), name)
-        return Sym(t, "bool")
+    if _is_data(obj):
+        dom, _v = _last_arrays(E)
+        return Sym(z3.Select(z3.Select(dom, obj.t), name.t), "bool")
     raise Unsupported("hasattr(%r, %r)" % (obj, name))
 
 
 def _ext_getattr(E, args, kwargs):
     obj, name = args[0], args[1]
-    if isinstance(obj, RefV) and obj.cls == "C22Data":
-        d = E.rd_field(obj, "_d")
-        if not E.branch(E.dhas(d, name)):
+    if _is_data(obj):
+        dom, val = _last_arrays(E)
+        if not E.branch(z3.Select(z3.Select(dom, obj.t), name.t)):
             if len(args) > 2:
                 return args[2]
             raise PyRaise(ExcV(AttributeError, (name,)))
-        return E.dget(d, name)
+        return Sym(z3.Select(z3.Select(val, obj.t), name.t), ("opaque", "c22val"))
     if isinstance(name, str):
         return E.getattr_v(obj, name)
     raise Unsupported("getattr(%r, %r)" % (obj, name))
 
 
 def _ext_setattr(E, args, kwargs):
-    obj, name, val = args
-    if isinstance(obj, RefV) and obj.cls == "C22Data":
-        E.dset(E.rd_field(obj, "_d"), name, val)
+    obj, name, v = args
+    if _is_data(obj):
+        dom, val = _last_arrays(E)
+        E.heap[LKD] = z3.Store(dom, obj.t, z3.Store(z3.Select(dom, obj.t), name.t, z3.BoolVal(True)))
+        E.heap[LKV] = z3.Store(val, obj.t, z3.Store(z3.Select(val, obj.t), name.t, v.t))
+        E.note_write(LKD, obj.t)
+        E.note_write(LKV, obj.t)
         return None
     raise Unsupported("setattr(%r, %r)" % (obj, name))
 
@@ -315,6 +339,32 @@ EXT = {io.StringIO: _ext_stringio, "str%": _ext_strmod, hasattr: _ext_hasattr, g
        setattr: _ext_setattr}
 REG.inline_ok.add("ns2u")
 
+# ---------------------------------------------------------------- the ghost cell list is not a program object
+@specfunc
+def ghost_apart(E, log):
+    """the file's ghost list of cells is none of the lists the program holds (key lists, field-name lists)"""
+    fc = E.rd_field(E.rd_field(log, "file"), "cells").t
+    r = z3.Int("r!ga")
+    k = z3.Const("k!ga", NS)
+    out = []
+    for cls, cd in REG.classes.items():
+        if not (cls in ("Log", "Loggee", "C22Data", "C22Store") or cls.startswith(("OD", "C22"))):
+            continue
+        for attr, ty in cd.fields.items():
+            if ty.kind == "list" and (cls, attr) != ("C22File", "cells"):
+                name, _ty = E.fkey(cls, attr)
+                out.append(z3.ForAll([r], z3.Select(E.harr(("f", name, 0), [z3.IntSort()], z3.IntSort()), r) != fc))
+            if ty.kind == "dict" and ty.args[1].kind == "list":
+                arr = E.harr(("dv", ty.args[0].key(), ty.args[1].key(), 0), [z3.IntSort(), NS], z3.IntSort())
+                out.append(z3.ForAll([r, k], z3.Select(z3.Select(arr, r), k) != fc))
+    return Sym(z3.And(*out), "bool")
+
+
+ghost_apart.native = lambda log: True
+MODEL = ["ghost_apart(self)"]
+REG.assume_note("C22: the file's ghost list of written cells is not one of the program's own lists (it exists only "
+                "in the proof)")
+
 # ---------------------------------------------------------------- the rule decisions
 P = dict(self=Ref("Log"))
 LOG_MOD = ["self.stamp", "self.file.cells[*]", "self.file.nwrites", "self.file.nrec"]
@@ -330,9 +380,9 @@ CALLED_ONCE = "ct_len() == 1 and ct_is(0, 'Log.log', self)"
 NOT_CALLED = "ct_len() == 0"
 
 
-contract(FL, "Log.never", "C22", params=P, modifies=[], ensures=[NOTHING], local_ensures=[NOT_CALLED])
-contract(FL, "Log.always", "C22", params=P, modifies=LOG_MOD, ensures=[ONE_RECORD], local_ensures=[CALLED_ONCE])
-contract(FL, "Log.once", "C22", params=P, modifies=LOG_MOD,
+contract(FL, "Log.never", "C22", params=P, assumes=MODEL, modifies=[], ensures=[NOTHING], local_ensures=[NOT_CALLED])
+contract(FL, "Log.always", "C22", params=P, assumes=MODEL, modifies=LOG_MOD, ensures=[ONE_RECORD], local_ensures=[CALLED_ONCE])
+contract(FL, "Log.once", "C22", params=P, assumes=MODEL, modifies=LOG_MOD,
          ensures=["implies(old(self.stamp) is None, %s)" % ONE_RECORD,
                   "implies(old(self.stamp) is not None, %s)" % NOTHING],
          local_ensures=["implies(old(self.stamp) is None, %s)" % CALLED_ONCE,
@@ -369,7 +419,7 @@ tag_at.native = lambda log, k: list(log.loggees.keys())[k]
 # 'update': a loggee qualifies when it has been stamped and its stamp is later than the log's
 QUAL = "(loggee_at(self, {k}).stamp is not None and loggee_at(self, {k}).stamp > self.stamp)"
 SOME_QUAL = "exists(lambda k: 0 <= k and k < nloggees(self) and %s)" % QUAL.format(k="k")
-contract(FL, "Log.update", "C22", params=P, modifies=LOG_MOD,
+contract(FL, "Log.update", "C22", params=P, assumes=MODEL, modifies=LOG_MOD,
          loops={0: dict(inv=["forall(lambda k: implies(0 <= k and k < _i, not %s))" % QUAL.format(k="k"),
                              NOT_CALLED])},
          ensures=["implies(old(self.stamp) is None, %s)" % ONE_RECORD,
@@ -398,26 +448,27 @@ def _nf_term(E, log, t):
         z3.Select(E.harr(("len",), [z3.IntSort()], z3.IntSort()), E.rd_field(_fmt_od(E, log, t), "_keys").t)
 
 
-def _ps_axioms(E, log):
-    """definition of the prefix sum over the ENTRY state (the format odicts are not written: frame) and its
-    monotonicity (lemma ps-monotone, proved by induction at the end of this file)"""
-    if E.ghost.get("c22_ps_axioms"):
-        return
-    E.ghost["c22_ps_axioms"] = True
+def _old_heap_eval(E, fn):
     heap = E.heap
     if E.heap_old is not None:
         E.heap = dict(E.heap_old)
     try:
-        t, u = z3.Int("t!ps"), z3.Int("u!ps")
-        nf_t, nf_u = _nf_term(E, log, t), _nf_term(E, log, u)
+        return fn()
     finally:
         E.heap = heap
+
+
+def _ps_axioms(E, log):
+    """the prefix sum is defined over the ENTRY state (the format odicts are not written: frame):
+    PS(0) = 0, PS(t+1) = PS(t) + nfmt(t) for t >= 0 (instances are added where the function is applied, see ps()),
+    and its monotonicity (lemma ps-monotone, proved by induction at the end of this file)"""
+    if E.ghost.get("c22_ps_axioms"):
+        return
+    E.ghost["c22_ps_axioms"] = True
+    t, u = z3.Int("t!ps"), z3.Int("u!ps")
+    nf_t = _old_heap_eval(E, lambda: _nf_term(E, log, t))
     s = log.t
     E.pc.append(PSF(s, 0) == 0)
-    E.pc.append(z3.ForAll([t], z3.Implies(t >= 0, z3.And(nf_t >= 0, PSF(s, t + 1) == PSF(s, t) + nf_t)),
-                          patterns=[PSF(s, t + 1)]))
-    E.pc.append(z3.ForAll([t], z3.Implies(t >= 0, z3.And(nf_t >= 0, PSF(s, t + 1) == PSF(s, t) + nf_t)),
-                          patterns=[PSF(s, t)]))
     E.pc.append(z3.ForAll([t, u], z3.Implies(z3.And(0 <= t, t < u), PSF(s, t) + nf_t <= PSF(s, u)),
                           patterns=[z3.MultiPattern(PSF(s, t), PSF(s, u))]))
 
@@ -426,7 +477,16 @@ def _ps_axioms(E, log):
 def ps(E, log, t):
     """number of (tag, field) cells of the loggees before position t"""
     _ps_axioms(E, log)
-    return Sym(PSF(log.t, zint(t)), "int")
+    x = z3.simplify(zint(t))
+    key = "c22_ps_inst_%s" % x.sexpr()
+    if "!b" not in key and not E.ghost.get(key):
+        E.ghost[key] = True                 # unfold the definition at x (forwards and backwards)
+        s = log.t
+        nf_x = _old_heap_eval(E, lambda: _nf_term(E, log, x))
+        nf_p = _old_heap_eval(E, lambda: _nf_term(E, log, x - 1))
+        E.pc.append(z3.Implies(x >= 0, z3.And(nf_x >= 0, PSF(s, x + 1) == PSF(s, x) + nf_x)))
+        E.pc.append(z3.Implies(x >= 1, z3.And(nf_p >= 0, PSF(s, x) == PSF(s, x - 1) + nf_p)))
+    return Sym(PSF(log.t, x), "int")
 
 
 @specfunc
@@ -486,8 +546,52 @@ LOG_INV = ["cf.nnl == 0", "len(cf.cells) >= 1 and cf.cells[0][0] == 0",
            "forall(lambda t, j: implies(0 <= t and t < ti and 0 <= j and j < nfmt(self, t), "
            "cell_ok(cf.cells, 1 + ps(self, t) + j, self, t, j)))"]
 OLDN = "old(len(self.file.cells))"
+
+
+@specfunc
+def some_multi(E, log):
+    """some prepared field that its loggee has holds a tuple whose length is not 1"""
+    t, j = z3.Int("t!sm"), z3.Int("j!sm")
+    n = nloggees(E, log).t
+    fo = _fmt_od(E, log, t)
+    fname = z3.Select(E.larrs(E.rd_field(fo, "_keys"))[0], j)
+    d = E.rd_field(loggee_at(E, log, Sym(t, "int")), "_d")
+    return Sym(z3.Exists([t, j], z3.And(0 <= t, t < n, 0 <= j, j < _nf_term(E, log, t), z3.Select(E.ddom(d), fname),
+                                        MULTI(z3.Select(E.dvals(d)[0], fname)))), "bool")
+
+
+def _n_some_multi(log):
+    for tag, loggee in log.loggees.items():
+        for field in log.formats[tag]:
+            if field in loggee and isinstance(loggee[field], tuple) and len(loggee[field]) != 1:
+                return True
+    return False
+
+
+some_multi.native = _n_some_multi
+FILE_SAME = ("self.file.nrec == old(self.file.nrec) and self.file.nwrites == old(self.file.nwrites) and "
+             "len(self.file.cells) == old(len(self.file.cells))")
+
+
+def _one_loggee_one_field(E):
+    """INSTANCE (smallest shape that shows the disagreement): one loggee with one prepared field"""
+    log = E.frame.env["self"]
+    lg = E.rd_field(log, "loggees")
+    keys = E.new_list(NAME, 1, [E.fresh("inst_tags", z3.ArraySort(z3.IntSort(), NS))])
+    E.wr_field(lg, "_keys", keys)
+    tag0 = Sym(z3.Select(E.larrs(keys)[0], 0), ("opaque", "c22name"))
+    fm = E.rd_field(E.rd_field(log, "formats"), "_d")
+    E.assume(E.dhas(fm, tag0))
+    fo = E.dget(fm, tag0)
+    E.wr_field(fo, "_keys", E.new_list(NAME, 1, [E.fresh("inst_fields", z3.ArraySort(z3.IntSort(), NS))]))
+
+
 contract(FL, "Log.log", "C22", params=P, modifies=LOG_MOD, externals=EXT,
-         assumes=PREP_FORMATS + SINGLE_FMT,
+         assumes=MODEL + PREP_FORMATS + SINGLE_FMT, may_raise_at_call=False,
+         raises={"TypeError": ["some_multi(self)", "self.stamp == self.store.stamp", FILE_SAME]},
+         note="the TypeError outcome is what the CODE does (exactly when a logged field holds a tuple whose length "
+              "is not 1: the fallback `'\\t%s' % value` raises again) - it contradicts the statement and is reported "
+              "through the instance contract Log.log[v1]; callers are verified against the normal outcome only",
          loops={0: dict(index_name="ti", inv=["len(cf.cells) == 1 + ps(self, ti)"] + LOG_INV),
                 1: dict(inv=["len(cf.cells) == 1 + ps(self, ti) + _i", "0 <= ti and ti < nloggees(self)",
                              "tag == tag_at(self, ti) and loggee is loggee_at(self, ti)",
@@ -504,3 +608,470 @@ contract(FL, "Log.log", "C22", params=P, modifies=LOG_MOD, externals=EXT,
                   "forall(lambda k: implies(0 <= k and k < %s, self.file.cells[k] == oldlist(self.file.cells)[k]))"
                   % OLDN],
          local_ensures=["ct_len() == 1 and ct_is(0, 'file.write', self.file)"])
+
+
+# ---------------------------------------------------------------- Log.change
+class _Chg:
+    """z3-level views used by the `change` specification (t = position of a tag in self.fields, j = position of a
+    field name in that tag's field list).  `last` records are read in the ENTRY state (L0) and in the current one."""
+    def __init__(self, E, log):
+        # everything but the current `lasts` records is read in the ENTRY state: change() writes none of it (frame
+        # obligations), and one fixed reading keeps all instances of a quantified clause syntactically equal
+        self.E = E
+        heap = E.heap
+        if E.heap_old is not None:
+            E.heap = dict(E.heap_old)
+        try:
+            self._read(E, log)
+        finally:
+            E.heap = heap
+        self.D, self.V = _last_arrays(E)
+
+    def _read(self, E, log):
+        fo = E.rd_field(log, "fields")
+        self.fkeys = E.rd_field(fo, "_keys")
+        self.nf = E.llen(self.fkeys)
+        self.ka = E.larrs(self.fkeys)[0]
+        self.fvals = E.dvals(E.rd_field(fo, "_d"))[0]
+        self.fdom = E.ddom(E.rd_field(fo, "_d"))
+        lo = E.rd_field(E.rd_field(log, "lasts"), "_d")
+        self.lvals, self.ldom = E.dvals(lo)[0], E.ddom(lo)
+        go = E.rd_field(E.rd_field(log, "loggees"), "_d")
+        self.gvals, self.gdom = E.dvals(go)[0], E.ddom(go)
+        self.len = E.harr(("len",), [z3.IntSort()], z3.IntSort())
+        self.el = E.harr(("el", NAME.key(), 0), [z3.IntSort(), z3.IntSort()], NS)
+        name, _ty = E.fkey("Loggee", "_d")
+        self.shd = E.harr(("f", name, 0), [z3.IntSort()], z3.IntSort())
+        self.sdom = E.harr(("dom", NAME.key()), [z3.IntSort(), NS], z3.BoolSort())
+        self.sval = E.harr(("dv", NAME.key(), VAL.key(), 0), [z3.IntSort(), NS], VS)
+        self.D0, self.V0 = _last_arrays(E)
+
+    def tag(self, t):
+        return z3.Select(self.ka, t)
+
+    def flist(self, t):
+        return z3.Select(self.fvals, self.tag(t))
+
+    def m(self, t):
+        return z3.Select(self.len, self.flist(t))
+
+    def fname(self, t, j):
+        return z3.Select(z3.Select(self.el, self.flist(t)), j)
+
+    def lr(self, t):
+        return z3.Select(self.lvals, self.tag(t))
+
+    def lg(self, t):
+        return z3.Select(self.gvals, self.tag(t))
+
+    def has(self, t, f):                                  # the loggee of tag t has field f now
+        return z3.Select(z3.Select(self.sdom, z3.Select(self.shd, self.lg(t))), f)
+
+    def cur(self, t, f):                                  # its current value
+        return z3.Select(z3.Select(self.sval, z3.Select(self.shd, self.lg(t))), f)
+
+    def in0(self, t, f):
+        return z3.Select(z3.Select(self.D0, self.lr(t)), f)
+
+    def val0(self, t, f):
+        return z3.Select(z3.Select(self.V0, self.lr(t)), f)
+
+    def vanish(self, t, j):
+        """the field was recorded in `lasts` and the loggee no longer has it: loggee[field] raises KeyError"""
+        f = self.fname(t, j)
+        return z3.And(self.in0(t, f), z3.Not(self.has(t, f)))
+
+    def diff(self, t, j):
+        """the field differs from its last logged value, or had none and is present now"""
+        f = self.fname(t, j)
+        return z3.And(self.has(t, f), z3.Or(z3.Not(self.in0(t, f)), self.cur(t, f) != self.val0(t, f)))
+
+    def active(self, t, j, tagn=""):
+        i = z3.Int("i!act" + tagn)
+        return z3.ForAll([i], z3.Implies(z3.And(0 <= i, i < j), z3.Not(self.vanish(t, i))))
+
+    def upd(self, t, f, upto=None, need_active=True, tagn=""):
+        """some examined occurrence of field name f in tag t's list differs"""
+        j = z3.Int("j!upd" + tagn)
+        hi = self.m(t) if upto is None else upto
+        parts = [0 <= j, j < hi, self.fname(t, j) == f, self.diff(t, j)]
+        if need_active:
+            parts.append(self.active(t, j, tagn))
+        return z3.Exists([j], z3.And(*parts))
+
+    def rec_is(self, t, f, upd):
+        """the current record of tag t at name f = the entry record overwritten with the loggee's value iff upd"""
+        d = z3.Select(z3.Select(self.D, self.lr(t)), f)
+        v = z3.Select(z3.Select(self.V, self.lr(t)), f)
+        return z3.And(d == z3.Or(self.in0(t, f), upd), v == z3.If(upd, self.cur(t, f), self.val0(t, f)))
+
+    def rec_same(self, t, f):
+        d = z3.Select(z3.Select(self.D, self.lr(t)), f)
+        v = z3.Select(z3.Select(self.V, self.lr(t)), f)
+        return z3.And(d == self.in0(t, f), v == self.val0(t, f))
+
+
+def _c(E, log):
+    return _Chg(E, log)
+
+
+@specfunc
+def nftags(E, log):
+    return Sym(_c(E, log).nf, "int")
+
+
+@specfunc
+def change_prepared(E, log):
+    """structure Log.prepare builds for the rule `change`: every tag of self.fields has a loggee and a `lasts`
+    record of its own; tags are pairwise distinct (odict keys)"""
+    c = _c(E, log)
+    a, b = z3.Int("a!cp"), z3.Int("b!cp")
+    return Sym(z3.And(
+        z3.ForAll([a], z3.Implies(z3.And(0 <= a, a < c.nf), z3.And(z3.Select(c.ldom, c.tag(a)),
+                                                                   z3.Select(c.gdom, c.tag(a)),
+                                                                   z3.Select(c.fdom, c.tag(a))))),
+        z3.ForAll([a, b], z3.Implies(z3.And(0 <= a, a < b, b < c.nf),
+                                     z3.And(c.tag(a) != c.tag(b), c.lr(a) != c.lr(b))))), "bool")
+
+
+@specfunc
+def some_diff(E, log, upto, act=True):
+    """some examined field of the tags before position `upto` differs from its last logged value.  act=True: only
+    fields the code reaches (no earlier field of the same loggee has vanished); act=False: any prepared field"""
+    c = _c(E, log)
+    t, j = z3.Int("t!sd"), z3.Int("j!sd")
+    parts = [0 <= t, t < zint(upto), 0 <= j, j < c.m(t), c.diff(t, j)]
+    if act is True:
+        parts.append(c.active(t, j, "sd"))
+    return Sym(z3.Exists([t, j], z3.And(*parts)), "bool")
+
+
+@specfunc
+def some_diff_cur(E, log, t, upto):
+    """some field before position `upto` of tag t's list differs"""
+    c = _c(E, log)
+    j = z3.Int("j!sc")
+    return Sym(z3.Exists([j], z3.And(0 <= j, j < zint(upto), c.diff(zint(t), j))), "bool")
+
+
+@specfunc
+def none_vanished(E, log, t, upto):
+    c = _c(E, log)
+    return Sym(c.active(zint(t), zint(upto), "nv"), "bool")
+
+
+@specfunc
+def some_vanished(E, log):
+    """REGION of the known finding: a field recorded in `lasts` is no longer a field of its loggee"""
+    c = _c(E, log)
+    t, j = z3.Int("t!sv"), z3.Int("j!sv")
+    return Sym(z3.Exists([t, j], z3.And(0 <= t, t < c.nf, 0 <= j, j < c.m(t), c.vanish(t, j))), "bool")
+
+
+@specfunc
+def lasts_state(E, log, done, cur_upto=None):
+    """the `lasts` records: tags before position `done` hold the loggee's current value at exactly the names of their
+    differing examined fields and are otherwise as at entry; tag `done` (if cur_upto is given) likewise for its first
+    cur_upto fields; later tags and every other record are untouched"""
+    c = _c(E, log)
+    t = z3.Int("t!ls")
+    f = z3.Const("f!ls", NS)
+    r = z3.Int("r!ls")
+    done = zint(done)
+    out = [z3.ForAll([t, f], z3.Implies(z3.And(0 <= t, t < done), c.rec_is(t, f, c.upd(t, f, tagn="ls"))))]
+    if cur_upto is not None:
+        out.append(z3.ForAll([f], c.rec_is(done, f, c.upd(done, f, upto=zint(cur_upto), need_active=False, tagn="lc"))))
+        out.append(z3.ForAll([t, f], z3.Implies(z3.And(done < t, t < c.nf), c.rec_same(t, f))))
+    else:
+        out.append(z3.ForAll([t, f], z3.Implies(z3.And(done <= t, t < c.nf), c.rec_same(t, f))))
+    other = z3.ForAll([t], z3.Implies(z3.And(0 <= t, t < c.nf), r != c.lr(t)))
+    out.append(z3.ForAll([r], z3.Implies(other, z3.And(z3.Select(c.D, r) == z3.Select(c.D0, r),
+                                                       z3.Select(c.V, r) == z3.Select(c.V0, r)))))
+    return Sym(z3.And(*out), "bool")
+
+
+@specfunc
+def lasts_untouched(E, log):
+    D, V = _last_arrays(E)
+    D0, V0 = _last_arrays(E, old=True)
+    return Sym(z3.And(D == D0, V == V0), "bool")
+
+
+@specfunc
+def cur_is(E, log, t, tag, last, loggee, fields):
+    """the locals of the outer loop body are the t-th tag, its `lasts` record, its loggee and its field list"""
+    c = _c(E, log)
+    t = zint(t)
+    return Sym(z3.And(tag.t == c.tag(t), last.t == c.lr(t), loggee.t == c.lg(t), fields.t == c.flist(t)), "bool")
+
+
+def _frame_but_lasts(E, outcome, result, exc):
+    """frame of Log.change: everything except the `lasts` records (stated exactly by lasts_state / lasts_untouched)
+    and the declared effect of log() is proved unchanged by the engine's own frame check"""
+    from pyvc.verify import check_frame
+    saved = dict(E.heap)
+    for k in (LKD, LKV):
+        E.heap.pop(k, None)
+    try:
+        check_frame(E, REG.active)
+    finally:
+        E.heap.clear()
+        E.heap.update(saved)
+
+
+def _exit_rebind(index_name, invs, final):
+    """loop-exit ghost: when a for-loop is left by its condition its index equals the length of the iterated list;
+    the invariants, which the path condition holds at the index, are restated AT that length (substitution of equals:
+    a logical consequence of the path condition, added only to spare the solver the rewriting under quantifiers)"""
+    def hook(E):
+        env = E.frame.env
+        idx = env[index_name]
+        fin = Sym(z3.simplify(zint(final(E))), "int")
+        saved = {k: env[k] for k in (index_name, "_i")}
+        same = zint(idx) == fin.t
+        try:
+            env[index_name] = fin
+            env["_i"] = fin
+            for text in invs:
+                E.pc.append(z3.Implies(same, E.spec_eval(text)))
+        finally:
+            env.update(saved)
+    return hook
+
+
+DIFF_CODE = "some_diff(self, nftags(self))"
+DIFF_STMT = "some_diff(self, nftags(self), False)"
+CH_INV = [NOT_CALLED, "0 <= ti and ti <= nftags(self)"]
+contract(FL, "Log.change", "C22", params=P, modifies=LOG_MOD, externals=EXT, frame=False,
+         extra_posts=[_frame_but_lasts],
+         assumes=MODEL + ["change_prepared(self)"],
+         loops={0: dict(index_name="ti",
+                        inv=CH_INV + ["iff(change, some_diff(self, ti))", "lasts_state(self, ti)"],
+                        exit=_exit_rebind("ti", ["iff(change, some_diff(self, ti))", "lasts_state(self, ti)"],
+                                          lambda E: nftags(E, E.frame.env["self"]))),
+                1: dict(inv=CH_INV + ["ti < nftags(self)", "cur_is(self, ti, tag, last, loggee, fields)",
+                                      "none_vanished(self, ti, _i)",
+                                      "iff(change, some_diff(self, ti) or some_diff_cur(self, ti, _i))",
+                                      "lasts_state(self, ti, _i)"])},
+         ensures=[
+             # first run
+             "implies(old(self.stamp) is None, %s and lasts_untouched(self))" % ONE_RECORD,
+             # later runs, exactly what the code does: a record iff some REACHED field differs; `lasts` then holds the
+             # current values of exactly the differing reached fields, everything else is untouched
+             "implies(old(self.stamp) is not None and %s, %s)" % (DIFF_CODE, ONE_RECORD),
+             "implies(old(self.stamp) is not None and not %s, %s)" % (DIFF_CODE, NOTHING),
+             "implies(old(self.stamp) is not None, lasts_state(self, nftags(self)))"],
+         local_ensures=[
+             "implies(old(self.stamp) is None, %s)" % CALLED_ONCE,
+             "implies(old(self.stamp) is not None and %s, %s)" % (DIFF_CODE, CALLED_ONCE),
+             "implies(old(self.stamp) is not None and not %s, %s)" % (DIFF_CODE, NOT_CALLED),
+             # the STATEMENT (a record whenever a logged field differs from its last logged value) holds whenever no
+             # recorded field has vanished from its loggee; the unrestricted clause is on the instance Log.change[v1]
+             "implies(old(self.stamp) is not None and not some_vanished(self), iff(%s, %s))"
+             % (DIFF_STMT, CALLED_ONCE)])
+
+
+def _one_tag_two_fields(E):
+    """INSTANCE: one tag with two prepared fields (the smallest shape where an earlier vanished field hides a later
+    differing one)"""
+    log = E.frame.env["self"]
+    fo = E.rd_field(log, "fields")
+    keys = E.new_list(NAME, 1, [E.fresh("inst_tags", z3.ArraySort(z3.IntSort(), NS))])
+    E.wr_field(fo, "_keys", keys)
+    tag0 = Sym(z3.Select(E.larrs(keys)[0], 0), ("opaque", "c22name"))
+    E.dset(E.rd_field(fo, "_d"), tag0, E.new_list(NAME, 2, [E.fresh("inst_fields", z3.ArraySort(z3.IntSort(), NS))]))
+
+
+CHANGE_V1 = contract(
+    FL, "Log.change", "C22", params=P, modifies=LOG_MOD, externals=EXT, frame=False, setup=_one_tag_two_fields,
+    assumes=MODEL + ["change_prepared(self)"], findings={"change-vanished-field": "some_vanished(self)"},
+    local_ensures=["implies(old(self.stamp) is not None, iff(%s, %s))" % (DIFF_STMT, CALLED_ONCE)],
+    note="instance: one tag, two prepared fields; the STATEMENT's clause without the restriction to `no recorded "
+         "field has vanished`")
+
+# INSTANCES of the statement on the smallest shapes that show a disagreement (concrete loop bounds, so a refuted clause
+# comes with a counter-model that is replayed natively).  Statement: a logger run writes its record - for ANY values
+LOG_V1 = contract(FL, "Log.log", "C22", params=P, modifies=LOG_MOD, externals=EXT, setup=_one_loggee_one_field,
+                  assumes=MODEL + PREP_FORMATS + SINGLE_FMT, ensures=[ONE_RECORD],
+                  note="instance: one loggee, one prepared field; no exception is declared (the statement promises a "
+                       "record for any history of share writes)")
+
+
+# ---------------------------------------------------------------- Log.logStreak / Log.streak
+# The one logged field of the FIRST loggee holds a list (MutableSequence) of values [seq case] or a single value that
+# is neither a sequence nor a mapping [scalar case].  (A MutableMapping value - popitem() order - is not covered.)
+classdecl("LoggeeSeq", fields=dict(stamp=Opt(REAL), _keys=List(NAME), _d=Dict(NAME, List(VAL))),
+          truthy=lambda E, o: E.llen(E.rd_field(o, "_keys")) > 0)
+classdecl("ODLoggeesSeq", fields=dict(_keys=List(NAME), _d=Dict(NAME, Ref("LoggeeSeq"))),
+          truthy=lambda E, o: E.llen(E.rd_field(o, "_keys")) > 0)
+for _cls in ("ODLoggeesSeq",):
+    REG.classes[_cls].hooks.update(REG.classes["ODLoggees"].hooks)
+for _k in (("contains", None), ("getitem", None), ("getattr", "keys")):
+    REG.classes["LoggeeSeq"].hooks[_k] = REG.classes["Loggee"].hooks[_k]
+classdecl("LogSeq", file=FL, bases=("Log",), fields=dict(loggees=Ref("ODLoggeesSeq")))
+REG.classes["LogSeq"].source = "Log"
+
+
+def _ext_isinstance(E, args, kwargs):
+    v, t = args
+    ts = t if isinstance(t, tuple) else (t,)
+    if all(x in (collections.abc.MutableSequence, collections.abc.MutableMapping, collections.abc.Mapping)
+           for x in ts):
+        if isinstance(v, ListV):
+            return collections.abc.MutableSequence in ts
+        if isinstance(v, Sym) and v.k == ("opaque", "c22val"):
+            return False                      # scalar case: the value is neither a sequence nor a mapping
+        if isinstance(v, RefV) and v.cls == "C22Entry":
+            return E.rd_field(v, "ismap") if collections.abc.Mapping in ts else False
+    return B.py_isinstance(E, v, t)
+
+
+def _ext_deque(E, args, kwargs):
+    if args or kwargs:
+        raise Unsupported("deque(...) with arguments")
+    return E.new_list(VAL, 0, kind="deque")
+
+
+EXT2 = dict(EXT)
+EXT2[isinstance] = _ext_isinstance
+EXT2[collections.deque] = _ext_deque
+
+
+class _Stk:
+    """entry-state reading of what logStreak looks at: first tag, first loggee, the field, its value"""
+    def __init__(self, E, log, seq):
+        heap = E.heap
+        if E.heap_old is not None:
+            E.heap = dict(E.heap_old)
+        try:
+            lo = E.rd_field(log, "loggees")
+            keys = E.rd_field(lo, "_keys")
+            self.nlog = E.llen(keys)
+            self.tag0 = z3.Select(E.larrs(keys)[0], 0)
+            tag0 = Sym(self.tag0, ("opaque", "c22name"))
+            ld = E.rd_field(lo, "_d")
+            self.lg0 = RefV(z3.Select(E.dvals(ld)[0], self.tag0), "LoggeeSeq" if seq else "Loggee", nn=True)
+            lkeys = E.rd_field(self.lg0, "_keys")
+            self.nkeys = E.llen(lkeys)
+            fd = E.rd_field(E.rd_field(log, "fields"), "_d")
+            self.tag_in_fields = E.dhas(fd, tag0)
+            flist = ListV(z3.Select(E.dvals(fd)[0], self.tag0), NAME)
+            self.nfl = E.llen(flist)
+            first_key = z3.Select(E.larrs(lkeys)[0], 0)
+            first_fld = z3.Select(E.larrs(flist)[0], 0)
+            self.field = z3.If(self.nfl > 0, first_fld, first_key)
+            fm = E.rd_field(E.rd_field(log, "formats"), "_d")
+            self.tag_in_formats = E.dhas(fm, tag0)
+            fo = RefV(z3.Select(E.dvals(fm)[0], self.tag0), "ODFmt", nn=True)
+            self.fld_in_formats = E.dhas(E.rd_field(fo, "_d"), Sym(first_fld, ("opaque", "c22name")))
+            sd = E.rd_field(self.lg0, "_d")
+            self.present = z3.Select(E.ddom(sd), self.field)
+            self.applies = z3.And(self.nlog > 0, self.nkeys > 0, self.present)
+            if seq:
+                self.vref = z3.Select(E.dvals(sd)[0], self.field)
+                self.n0 = z3.Select(E.harr(("len",), [z3.IntSort()], z3.IntSort()), self.vref)
+                self.el0 = z3.Select(E.harr(("el", VAL.key(), 0), [z3.IntSort(), z3.IntSort()], VS), self.vref)
+            else:
+                self.val = z3.Select(E.dvals(sd)[0], self.field)
+        finally:
+            E.heap = heap
+
+
+@specfunc
+def streak_prepared(E, log, seq):
+    """what Log.prepare / addLoggee guarantee for the rule `streak`: the first tag has a field-list entry and, when
+    that list is not empty, a format for its first field"""
+    s = _Stk(E, log, seq)
+    return Sym(z3.Implies(s.nlog > 0, z3.And(s.tag_in_fields,
+                                              z3.Implies(s.nfl > 0, z3.And(s.tag_in_formats, s.fld_in_formats)))), "bool")
+
+
+@specfunc
+def streak_applies(E, log, seq):
+    """there is a loggee, it has fields, and it has the logged field"""
+    return Sym(_Stk(E, log, seq).applies, "bool")
+
+
+@specfunc
+def streak_list(E, log):
+    """the sequence the streak rule drains: value of the logged field of the first loggee (entry state)"""
+    return ListV(_Stk(E, log, True).vref, VAL)
+
+
+@specfunc
+def streak_n0(E, log):
+    return Sym(_Stk(E, log, True).n0, "int")
+
+
+@specfunc
+def streak_el0(E, log, k):
+    """element k of the sequence as it was at entry"""
+    return Sym(z3.Select(_Stk(E, log, True).el0, zint(k)), ("opaque", "c22val"))
+
+
+@specfunc
+def streak_val(E, log):
+    return Sym(_Stk(E, log, False).val, ("opaque", "c22val"))
+
+
+@specfunc
+def line_is(E, cells, at, v):
+    """cells[at:at+3] is one streak line: time, the value v, newline"""
+    c0, c1 = E.larrs(cells)
+    at = zint(at)
+    return Sym(z3.And(z3.Select(c0, at) == T_, z3.Select(c0, at + 1) == V_, z3.Select(c1, at + 1) == v.t,
+                      z3.Select(c0, at + 2) == NL_), "bool")
+
+
+def _n_streak(log):
+    if not log.loggees:
+        return None
+    tag, loggee = list(log.loggees.items())[0]
+    if not loggee:
+        return None
+    field = log.fields[tag][0] if log.fields[tag] else loggee.keys()[0]
+    return loggee[field] if field in loggee else None
+
+
+streak_prepared.native = lambda log, seq: True
+streak_applies.native = lambda log, seq: _n_streak(log) is not None
+streak_list.native = lambda log: _n_streak(log)
+
+SEQ = dict(self=Ref("LogSeq"))
+N0 = "streak_n0(self)"
+SAME_PREFIX = ("forall(lambda k: implies(0 <= k and k < %s, self.file.cells[k] == oldlist(self.file.cells)[k]))" % OLDN)
+STK_INV_A = ["len(value) + len(d) == %s" % N0, "value is streak_list(self)",
+             "forall(lambda k: implies(0 <= k and k < len(value), value[k] == streak_el0(self, k)))",
+             "forall(lambda k: implies(0 <= k and k < len(d), d[k] == streak_el0(self, len(value) + k)))"]
+STK_INV_B = ["len(value) == 0 and value is streak_list(self)", "len(d) <= %s" % N0,
+             "forall(lambda k: implies(0 <= k and k < len(d), d[k] == streak_el0(self, %s - len(d) + k)))" % N0,
+             "len(cf.cells) == 3 * (%s - len(d)) and cf.nnl == %s - len(d)" % (N0, N0),
+             "forall(lambda q: implies(0 <= q and q < %s - len(d), line_is(cf.cells, 3 * q, streak_el0(self, q))))" % N0]
+contract(FL, "Log.logStreak", "C22", params=SEQ, externals=EXT2,
+         assumes=MODEL + SINGLE_FMT + ["streak_prepared(self, True)", "streak_list(self) is not self.file.cells"],
+         modifies=LOG_MOD + ["streak_list(self)[*]"],
+         loops={0: dict(inv=STK_INV_A), 2: dict(inv=STK_INV_B)},
+         ensures=["self.stamp == self.store.stamp",
+                  # the queue is left empty, every element is logged exactly once, first in first out
+                  "implies(streak_applies(self, True), len(streak_list(self)) == 0)",
+                  "implies(streak_applies(self, True) and not self.file.closed, "
+                  "len(self.file.cells) == %s + 3 * %s and self.file.nrec == old(self.file.nrec) + %s and "
+                  "self.file.nwrites == old(self.file.nwrites) + 1)" % (OLDN, N0, N0),
+                  "implies(streak_applies(self, True) and not self.file.closed, forall(lambda q: implies(0 <= q and "
+                  "q < %s, line_is(self.file.cells, %s + 3 * q, streak_el0(self, q)))))" % (N0, OLDN),
+                  SAME_PREFIX,
+                  "implies(not streak_applies(self, True) or self.file.closed, %s)" % FILE_SAME,
+                  "implies(not streak_applies(self, True), len(streak_list(self)) == old(len(streak_list(self))))"],
+         local_ensures=["implies(streak_applies(self, True), ct_len() == 1 and ct_is(0, 'file.write', self.file))",
+                        "implies(not streak_applies(self, True), ct_len() == 0)"],
+         note="seq case: the logged field holds a list")
+contract(FL, "Log.logStreak", "C22", params=P, externals=EXT2,
+         assumes=MODEL + SINGLE_FMT + ["streak_prepared(self, False)"], modifies=LOG_MOD,
+         ensures=["self.stamp == self.store.stamp",
+                  "implies(streak_applies(self, False) and not self.file.closed, "
+                  "len(self.file.cells) == %s + 3 and self.file.nrec == old(self.file.nrec) + 1 and "
+                  "self.file.nwrites == old(self.file.nwrites) + 1 and "
+                  "line_is(self.file.cells, %s, streak_val(self)))" % (OLDN, OLDN),
+                  SAME_PREFIX,
+                  "implies(not streak_applies(self, False) or self.file.closed, %s)" % FILE_SAME],
+         note="scalar case: the logged field holds one value that is neither a sequence nor a mapping")
